@@ -830,6 +830,9 @@ func (h *Hist) Block() bool {
 		}
 		tags := tagsOf(r.Events)
 		h.Stats[fmt.Sprintf("tx.%02d.%s", g.Type, okstr(r.Code))]++
+		if g.Note == "wl-source" {
+			h.Stats[fmt.Sprintf("gen.wl-source.%02d.%s", g.Type, okstr(r.Code))]++
+		}
 		if r.Code != 0 {
 			h.Stats[fmt.Sprintf("err.%d", r.Code)]++
 		}
